@@ -56,7 +56,7 @@ def build_component(comp, workdir, extra_defines=()):
     spec = os.path.join(ROOT, 'contracts', comp + '.spec')
     cfg, contracts, harnesses = parse_spec(spec)
     cfg['driver'] = os.path.join(ROOT, cfg['driver'])
-    cfg['includes'] = [os.path.join(REPO, 'include'), os.path.join(ROOT, 'lower', 'drivers')] + \
+    cfg['includes'] = [os.path.join(REPO, 'include'), REPO, os.path.join(ROOT, 'lower', 'drivers')] + \
         [i.replace('$REPO', REPO) for i in cfg['includes']]
     cfg['defines'] = list(cfg['defines']) + ['TULZ_REPO_ROOT="%s"' % REPO]
     for name, c in contracts.items():
@@ -168,7 +168,8 @@ def run_harness(h, cfile, workdir, cfg, tier='quick'):
         desc = r.get('description', '')
         if 'VACUITY-CANARY' in desc:
             res['obligations'] -= 1
-            canary_ok = (st == 'FAILURE')
+            if (r.get('property') or '').startswith(name + '.'):
+                canary_ok = (st == 'FAILURE')
             continue
         if st == 'SUCCESS':
             res['discharged'] += 1
@@ -178,6 +179,11 @@ def run_harness(h, cfile, workdir, cfg, tier='quick'):
                                   'file': loc.get('file'), 'line': loc.get('line'), 'function': loc.get('function'),
                                   'trace': summarise_trace(r.get('trace', []))})
     res['canary'] = canary_ok
+    undefined = sorted(set(f['function'] for f in res['failed'] if 'undefined function should be unreachable' in (f['description'] or '')))
+    if undefined:
+        res['status'] = 'error'
+        res['detail'] = 'the lowered code calls functions for which /verif/specs has no model: %s' % undefined
+        return res
     # second pass: counterexample traces for (at most three) failed obligations only
     if res['failed'] and os.environ.get('VERIF_NO_TRACE') != '1':
         for f in res['failed'][:3]:
@@ -321,6 +327,8 @@ def check(prop, tier):
     shutil.rmtree(wd, ignore_errors=True)
     os.makedirs(wd, exist_ok=True)
     evp = os.path.join(ROOT, 'evidence', prop + '.json')
+    if os.path.realpath(REPO) != '/repo':
+        evp = os.path.join(WORK, 'evidence_scratch', prop + '.json')     # scratch trees never overwrite committed evidence
     comps = components_for(prop)
     if not comps:
         raise ToolFailure('no harness is registered for property %s' % prop)
